@@ -1,10 +1,19 @@
 /- Spec lemmas for the translated klog/date.go (KlogV/Gen/GoCal.lean), used by GoCalA.lean. Core Lean only. -/
 import KlogV.GoSem.AbsCal
-import KlogV.Lemmas.GoSrcA1
+import KlogV.Lemmas.Values
 import KlogV.Lemmas.Calendar1
 set_option linter.unusedSimpArgs false
 namespace KlogV.GoL
 open KlogV.Go
+
+theorem fmtD0_pad2_cal (n : Nat) (h : n < 100) : fmtD0 2 (n : Int) = pad2 n := by
+  have h0 : ¬ ((n : Int) < 0) := by omega
+  by_cases h1 : n < 10
+  · have : n / 10 = 0 := by omega
+    have d0 : digitChar 0 = '0' := by decide
+    simp [fmtD0, h0, natDigits_lt n h1, pad2, this, d0]
+  · simp [fmtD0, h0, natDigits_lt100 n h1 h, pad2]
+
 
 theorem isLeapInt_cast (y : Nat) : isLeapInt (y : Int) = isLeap y := by
   unfold isLeapInt isLeap
